@@ -167,6 +167,13 @@ func (r *Runner) CreateScope(parent int, ctxKind int) (*ScopeRec, *Obs) {
 	case 3:
 		rec.CtxKey, rec.CtxVal = ctxKeyT{tag}, fmt.Sprintf("val-%d", tag)
 		ctx, rec.Cancel = context.WithCancel(context.WithValue(context.Background(), rec.CtxKey, rec.CtxVal))
+	case 4:
+		// a context derived from the parent scope's own context, with its own cancel
+		base := context.Background()
+		if parent != 0 && pr != nil && pr.S != nil {
+			base = pr.S.Context()
+		}
+		ctx, rec.Cancel = context.WithCancel(base)
 	}
 	if ctxKind >= 10 { // gate context: Done() is a pre-emption point
 		base, cancel := context.WithCancel(context.Background())
